@@ -23,15 +23,34 @@ type vRelay struct {
 	ids    [][]byte
 	boxes  []chan []byte
 	budget int
-	seen   [][]byte
-	sends  int
+	// the faulty window starts after `skip` operations
+	skip int
+	// relay restart: every stream opened before it fails once
+	restartCh chan struct{}
+	seen      [][]byte
+	sends     int
 	// all stream ids presented so far that are not sid / sid^1 get their own pair
 	alt     *vRelay
 	creates int
 }
 
 func newRelay(sid [64]byte, budget int) *vRelay {
-	return &vRelay{sid: sid, budget: budget}
+	return &vRelay{sid: sid, budget: budget, restartCh: make(chan struct{})}
+}
+
+// restart: the relay drops all its streams (they fail on their pending or next
+// operation); new streams work.
+func (r *vRelay) restart() {
+	r.mu.Lock()
+	defer r.mu.Unlock()
+	close(r.restartCh)
+	r.restartCh = make(chan struct{})
+}
+
+func (r *vRelay) epoch() chan struct{} {
+	r.mu.Lock()
+	defer r.mu.Unlock()
+	return r.restartCh
 }
 
 // box returns the mailbox of a stream id (one mailbox per distinct id; ids
@@ -60,11 +79,20 @@ func (r *vRelay) chanOf(i int) chan []byte {
 func (r *vRelay) fault(kind string) int {
 	r.mu.Lock()
 	defer r.mu.Unlock()
+	if r.skip > 0 {
+		r.skip--
+		return 0
+	}
 	if r.budget <= 0 {
 		return 0
 	}
 	r.budget--
-	return vIntRange("relay_"+kind, 0, 2) // 0 ok, 1 stream error, 2 drop
+	// 0 ok, 1 stream error, 2 drop, 3 relay restart (send only: the Send fails
+	// and every stream opened so far fails its pending or next operation)
+	if kind == "send" {
+		return vIntRange("relay_"+kind, 0, 3)
+	}
+	return vIntRange("relay_"+kind, 0, 1)
 }
 
 func (r *vRelay) NewCipherBox(ctx context.Context, in *hashmailrpc.CipherBoxAuth, opts ...grpc.CallOption) (*hashmailrpc.CipherInitResp, error) {
@@ -79,17 +107,19 @@ func (r *vRelay) DelCipherBox(ctx context.Context, in *hashmailrpc.CipherBoxAuth
 }
 
 func (r *vRelay) SendStream(ctx context.Context, opts ...grpc.CallOption) (hashmailrpc.HashMail_SendStreamClient, error) {
-	return &vSendStream{r: r, ctx: ctx}, nil
+	return &vSendStream{r: r, ctx: ctx, epoch: r.epoch()}, nil
 }
 
 func (r *vRelay) RecvStream(ctx context.Context, in *hashmailrpc.CipherBoxDesc, opts ...grpc.CallOption) (hashmailrpc.HashMail_RecvStreamClient, error) {
-	return &vRecvStream{r: r, ctx: ctx, box: r.box(in.StreamId)}, nil
+	return &vRecvStream{r: r, ctx: ctx, box: r.box(in.StreamId), epoch: r.epoch()}, nil
 }
 
 type vSendStream struct {
 	grpc.ClientStream
-	r   *vRelay
-	ctx context.Context
+	r     *vRelay
+	ctx   context.Context
+	epoch chan struct{}
+	dead  bool
 }
 
 func (s *vSendStream) Send(m *hashmailrpc.CipherBox) error {
@@ -98,11 +128,24 @@ func (s *vSendStream) Send(m *hashmailrpc.CipherBox) error {
 		return s.ctx.Err()
 	default:
 	}
+	select {
+	case <-s.epoch:
+		s.dead = true
+	default:
+	}
+	if s.dead {
+		return vErrStream
+	}
 	switch s.r.fault("send") {
 	case 1:
+		s.dead = true
 		return vErrStream
 	case 2:
 		return nil
+	case 3:
+		s.dead = true
+		s.r.restart()
+		return vErrStream
 	}
 	s.r.mu.Lock()
 	s.r.seen = append(s.r.seen, m.Msg)
@@ -117,18 +160,27 @@ func (s *vSendStream) CloseSend() error                                  { retur
 
 type vRecvStream struct {
 	grpc.ClientStream
-	r   *vRelay
-	ctx context.Context
-	box int
+	r     *vRelay
+	ctx   context.Context
+	box   int
+	epoch chan struct{}
+	dead  bool
 }
 
 func (s *vRecvStream) Recv() (*hashmailrpc.CipherBox, error) {
+	if s.dead {
+		return nil, vErrStream
+	}
 	if s.r.fault("recv") == 1 {
+		s.dead = true
 		return nil, vErrStream
 	}
 	select {
 	case b := <-s.r.chanOf(s.box):
 		return &hashmailrpc.CipherBox{Msg: b}, nil
+	case <-s.epoch:
+		s.dead = true
+		return nil, vErrStream
 	case <-s.ctx.Done():
 		return nil, s.ctx.Err()
 	}
